@@ -222,7 +222,14 @@ class PoolRun:
             handed = Deadline()
         else:
             handed = cb_
-        cube.check_interrupt = handed if not real_pool else None
+        # ... and where it is installed: on the cube, or on the cube's class (where poolsize and debug are declared too),
+        # from which every cube - also the ones the library builds internally - inherits it
+        on_class = getattr(self, "callback_place", "instance") == "class" and not real_pool
+        if on_class:
+            cube.__dict__.pop("check_interrupt", None)
+            type(cube).check_interrupt = staticmethod(handed)      # (a plain function stored on a class would be bound)
+        else:
+            cube.check_interrupt = handed if not real_pool else None
         cube.parallel = mode == "pool"
         cube.poolsize = P
         outcome, outs, tagok = "returned", None, True
@@ -247,6 +254,8 @@ class PoolRun:
                 self.last_exc = "%s: %s" % (type(e).__name__, e)
         finally:
             sched.uninstall()
+            if on_class:
+                type(cube).check_interrupt = None
             cube.check_interrupt = None
             if self.kind == "xcube":
                 try:
